@@ -45,6 +45,7 @@ type World struct {
 	srcFile map[string][]string // cached source lines
 	// constLenNames: callee name → constant length of its slice result (see funcConstLen)
 	constLenNames map[string]int64
+	globals       map[*ssa.Global]*globalBytes // see constfold.go
 }
 
 func relPkg(path string) string {
